@@ -101,6 +101,9 @@ fixed("C05", "6f2bae2", "KernelPCovR(center=True).score centred K_VV as if it we
 fixed("C10", "a904241", "Ridge2FoldCV called the scorer with truth and prediction swapped: scoring='r2' gave cv_values_=-25.1 where explicit two-fold CV gives 0.256")
 fixed("C10", "5343c07", "Ridge2FoldCV kept rounding-noise singular directions (n = len(s > rcond); rcond applied absolutely): coefficients ~1e14 on X with a duplicated column and alpha=1e-30 / relative 0, wrong fold scores for sigma_1 > ~10")
 
+# ------------------------------------------------------------------ C13
+fixed("C13", "995e325", "global/pointwise_global_reconstruction_distortion raised a broadcasting error whenever X had more features than Y (e.g. 40x5 vs 40x3)")
+
 if __name__ == "__main__":
     out = {
         "comment": "Genuine defects of scikit-matter found by the monitors. status=known: recorded, not repaired, keyed by "
